@@ -140,7 +140,7 @@ func parseLinkReferenceDefinition(block text.Reader, pc Context) (int, int) {
 		if !isNewLine {
 			return -1, -1
 		}
-		ref := NewReference(label, destination, title)
+		ref := NewReference(label, destination, nil)
 		pc.AddReference(ref)
 		return startLine, endLine
 	}
